@@ -1,0 +1,7 @@
+//go:build !verif
+
+package msg
+
+// verifYield marks a point at which the verification harness (build tag verif) may switch between
+// goroutines. Without the tag it does nothing.
+func verifYield(string) {}
